@@ -17,6 +17,8 @@ pub struct Tcp {
     pub bytes_received: usize,
     pub t0: Instant,
     pub eof: bool,
+    /// the client idles this long before it answers the authentication cookie request
+    pub cookie_delay: Option<Duration>,
 }
 
 pub enum Recv {
@@ -33,7 +35,10 @@ impl Tcp {
         }
         let s = sock.connect(addr).await?;
         s.set_nodelay(true)?;
-        Ok(Tcp { s, enc: None, dec: None, inbuf: vec![], bytes_received: 0, t0: Instant::now(), eof: false })
+        Ok(Tcp { s, enc: None, dec: None, inbuf: vec![], bytes_received: 0, t0: Instant::now(), eof: false, cookie_delay: None })
+    }
+    pub fn from_stream(s: TcpStream) -> Self {
+        Tcp { s, enc: None, dec: None, inbuf: vec![], bytes_received: 0, t0: Instant::now(), eof: false, cookie_delay: None }
     }
     pub fn ms(&self) -> u64 {
         self.t0.elapsed().as_millis() as u64
@@ -88,6 +93,17 @@ impl Tcp {
                 }
             }
         }
+    }
+    /// After the server's end of stream: is the connection gone for good? Keeps writing for half a second; a socket the server
+    /// really closed answers with a reset, so a write fails. (A server that only half-closed and keeps reading accepts them all.)
+    pub async fn closed_for_good(&mut self) -> bool {
+        for _ in 0..6 {
+            if self.s.write_all(&[0u8; 16]).await.is_err() {
+                return true;
+            }
+            tokio::time::sleep(Duration::from_millis(100)).await;
+        }
+        false
     }
     /// Waits until the server closes the connection (or `wait` passes); returns the ms at which EOF was seen.
     pub async fn wait_eof(&mut self, wait: Duration) -> Option<u64> {
@@ -253,6 +269,9 @@ pub async fn login(t: &mut Tcp, intent: i32, name: &str, uuid: u128, auth_cookie
                     }
                 } else {
                     o.asked_auth_cookie = true;
+                    if let Some(d) = t.cookie_delay {
+                        tokio::time::sleep(d).await;
+                    }
                     let _ = t.send_frame(4, &body_cookie("passage:authentication", auth_cookie.as_deref())).await;
                     o.reached = "authcookie".into();
                     if stop_after == "authcookie" {
